@@ -28,12 +28,27 @@ impl Prop for C08 {
     }
     fn budget(&self, tier: Tier) -> u64 {
         match tier {
-            Tier::Quick => 150_000,
-            Tier::Thorough => 5_000_000,
+            Tier::Quick => 500_000,
+            Tier::Thorough => 8_000_000,
         }
     }
     fn required_labels(&self) -> Vec<&'static str> {
         vec!["vendor_defined_pci", "vendor_defined_iana", "vendor_defined_badformat", "trait_pci", "trait_iana", "trait_spdm", "trait_secured", "pci_data>16bit", "body_at_limit"]
+    }
+    fn enumerate(&self, tier: Tier, shard: usize, nshards: usize, f: &mut dyn FnMut(EncCase)) {
+        let mut idx = 0usize;
+        super::enumer::for_each_enc_case(tier, true, false, false, &mut |env, call| {
+            if !matches!(call, EncCall::ReqVendor { .. } | EncCall::TraitPci { .. } | EncCall::TraitIana { .. } | EncCall::TraitSpdm { .. }) {
+                return;
+            }
+            idx += 1;
+            if idx % nshards == shard {
+                f(EncCase { env, call });
+            }
+        });
+    }
+    fn enumerated_desc(&self, _tier: Tier) -> Option<String> {
+        Some("every vendor ID format byte 0..255 (two messages each); every message length 0..247 (PCI) / 0..245 (IANA) through vendor_defined(); every body length 0..249 through the PCI, IANA, SPDM and secured trait-level writers of both halves, with and without a separate header".into())
     }
     fn run(&self, case: &EncCase) -> CaseResult {
         let mut r = CaseResult::default();
